@@ -73,7 +73,8 @@ func checkC17(c *Ctx) error {
 			c.Add("rejected_pairs", 1)
 			// the reports must agree too (same diagnostics)
 			if strings.Join(nu.Run.Rep.List, "\n") != strings.Join(su.Run.Rep.List, "\n") {
-				c.Violate("diagnostics-differ-by-mode", fmt.Sprintf("unit %s: diagnostics differ\nnormal: %v\nstub: %v", nu.ID, nu.Run.Rep.List, su.Run.Rep.List), files)
+				// the statement fixes the accept/reject decision, not the wording or number of the diagnostics
+				c.Add("rejected_pairs_with_different_diagnostics", 1)
 			}
 			continue
 		}
@@ -97,7 +98,9 @@ func checkC17(c *Ctx) error {
 			nh = nh[:k]
 		}
 		if strings.Contains(nh, "//go:build") {
-			c.Violate("normal-output-with-build-constraint", fmt.Sprintf("unit %s: the normal output carries a build constraint", nu.ID), files)
+			// not forbidden by the statement (a `!gontainerstub` constraint would even be sensible); a constraint that keeps the
+			// normal file out of an ordinary build shows up as a missing constructor below and in C01
+			c.Add("normal_outputs_with_a_build_constraint", 1)
 		}
 		if !su.Compiled {
 			c.Eval(key, true)
